@@ -23,8 +23,7 @@ inductive PKind where | producer | get | batch | stopper
   deriving DecidableEq, Repr
 
 def Prog.kind : Prog → PKind
-  | .producer _ _ => .producer | .getLoop => .get | .batchLoop _ _ => .batch | .batchKeep _ => .batch
-  | .stopper _ => .stopper
+  | .producer _ _ => .producer | .getLoop => .get | .batchLoop _ _ => .batch | .stopper _ => .stopper
 
 def pcKind : Pc → Option PKind
   | .start | .done => none
